@@ -39,7 +39,11 @@ def write(prop: str, tier: str, seed: int, level: str, tally, meta: dict, wall_s
         "wall_s": round(wall_s, 2),
         "violations": n_violations,
     }
-    out = ROOT / "evidence" / f"{prop}.json"
+    import os
+
+    # VERIF_EVIDENCE_DIR: used when the checks are pointed at a scratch copy of the repository (seeded changes),
+    # so that the committed evidence, which must come from /repo itself, is not overwritten
+    out = Path(os.environ.get("VERIF_EVIDENCE_DIR") or (ROOT / "evidence")) / f"{prop}.json"
     out.parent.mkdir(exist_ok=True)
     out.write_text(json.dumps(ev, indent=1, sort_keys=False) + "\n")
     try:  # self-validation (never fatal for the verdict, but loud)
